@@ -31,7 +31,8 @@ SeekSet == (IF IsC11 THEN {LI(0), LI(64)} ELSE {LI(d) : d \in Deltas}) \cup {WSu
 A1 == 194 + ((SEEDV * 37) % 61)
 A2 == 258 + ((SEEDV * 53) % 120)
 A3 == 66 + ((SEEDV * 29) % 126)       \* 66..191
-ApplySet == IF TIER = "quick" THEN {0, 1, 63, 64, 65, 256, 257, A1, A2}
+R1 == 258 + ((SEEDV * 41) % 62)       \* rewind by 258..319: into the fourth-from-last block of what was just produced
+ApplySet == IF TIER = "quick" THEN {0, 1, 63, 64, 65, 256, 257, 512, A1, A2}
             ELSE IF TIER = "c11" THEN {0, 1, 63, 64, 65, A1, 257, A2}
             ELSE IF TIER = "c11t" THEN {0, 1, 2, 63, 64, 65, 66, 128, 129, 193, 255, 256, 257, 321, A1, A3}
             ELSE {0, 1, 2, 63, 64, 65, 127, 129, 192, 255, 256, 257, 321, 513, 1025, A1, A2, A3}
@@ -41,7 +42,7 @@ Init == /\ depth = 0
 Step == depth < DEPTH /\ depth' = depth + 1
 DoSeek(p) == Step /\ Seek(p)
 \* rewind relative to the current position (re-reading what was just produced)
-RelSet == IF TIER \in {"quick", "c11"} THEN {0, 1, 64, 65} ELSE {0, 1, 2, 63, 64, 65, 128, 256, 257}    \* 0: seek to the current position
+RelSet == IF TIER = "quick" THEN {0, 1, 64, 65, R1} ELSE IF TIER = "c11" THEN {0, 1, 64, 65} ELSE {0, 1, 2, 63, 64, 65, 128, 256, 257, R1, 512}    \* 0: seek to the current position
 DoSeekRel(d) == Step /\ WLe(LI(d), pos) /\ WLe(WSub(pos, LI(d)), L64m) /\ Seek(WSub(pos, LI(d)))
 DoSeekBad == Step /\ SeekUnconvertible
 DoApply(n) == Step /\ Apply(n)
